@@ -24,6 +24,8 @@ pub struct ExpTarget {
     pub port: u16,
     /// key -> (value, field class)
     pub meta: BTreeMap<String, (String, &'static str)>,
+    /// keys claimed by more than one source of the object: their value is not judged
+    pub contested: BTreeSet<String>,
 }
 
 pub enum Addr {
@@ -159,9 +161,12 @@ pub fn expect_of(obj: &Value) -> Expect {
     };
     let mut meta: BTreeMap<String, (String, &'static str)> = BTreeMap::new();
     let collision = std::cell::Cell::new(false);
+    // keys claimed by two sources: which value wins is not part of the statement, but whether the
+    // server is offered still is (it depends on the *observed state*, not on a label of that name)
+    let contested: std::cell::RefCell<BTreeSet<String>> = std::cell::RefCell::new(BTreeSet::new());
     let put = |k: &str, v: String, class: &'static str, meta: &mut BTreeMap<String, (String, &'static str)>| {
         if meta.insert(k.to_string(), (v, class)).is_some() {
-            collision.set(true);
+            contested.borrow_mut().insert(k.to_string());
         }
     };
     put("state", state.to_string(), "meta-state", &mut meta);
@@ -194,10 +199,13 @@ pub fn expect_of(obj: &Value) -> Expect {
         }
     }
     if collision.get() {
-        // two sources claim the same metadata key: which one wins is not part of the statement
+        // a counter without a count: the statement does not say what its metadata value is
         return Expect::Unjudged;
     }
-    Expect::Offered(ExpTarget { ip, port, meta })
+    for k in contested.borrow().iter() {
+        meta.remove(k);
+    }
+    Expect::Offered(ExpTarget { ip, port, meta, contested: contested.into_inner() })
 }
 
 /// Class of the latest state, used in signatures.
@@ -339,7 +347,7 @@ impl Reference {
         // keys the object carried in an earlier version and does not carry any more
         if let Some(ever) = self.ever_keys.get(name) {
             for k in seen.meta.keys() {
-                if !exp.meta.contains_key(k) && ever.contains(k) {
+                if !exp.meta.contains_key(k) && !exp.contested.contains(k) && ever.contains(k) {
                     if !fields.iter().any(|f| f == "meta-stale-key") {
                         fields.push("meta-stale-key".to_string());
                     }
